@@ -127,7 +127,8 @@ def interpStep (op : SrvOp) (i : ISt) (st : String) : ISt × String :=
       let i := quiesce cfg { i with acceptHeld := false }
       (i, connOutcome cfg i c false)
     | _ => (i, "")
-  | "q" =>
+  | "q" | "h" =>
+    -- (`h`: the rest of the request that `g` began arrives after a pause: from then on an ordinary request)
     if noClient i k then (i, "nc") else
     let i := quiesce cfg { i with s := step cfg i.s (.clientSend k id .normal) }
     (i, replyObs i k id)
@@ -193,6 +194,9 @@ def interpStep (op : SrvOp) (i : ISt) (st : String) : ISt × String :=
         | _ => pure ()
         return i
       (i, match i.s.sd with | .returned .ok => "nil" | .returned .ctxErr => "ctx" | .returned .lerr => "err" | _ => "to")
+  | "xh" =>
+    -- the serve context ends while the accept callback is held: Serve cannot return yet, nothing is waited for
+    (quiesce cfg { i with s := step cfg (step cfg i.s .ctxCancel) .afterFunc }, "ok")
   | "x" =>
     let i := quiesce cfg { i with s := step cfg (step cfg i.s .ctxCancel) .afterFunc }
     (i, match i.s.acc with | .returned .closed => "closed" | .returned .err => "err" | _ => "hang")
